@@ -151,12 +151,21 @@ namespace rpc {
                                 }
                                 if (ret == -1) {
                                     // or just timed out
+                                    bool picked;
                                     {
                                         SCOPED_LOCK(m_mutex_map);
-                                        m_map.erase(args.tag);
+                                        picked = (m_map.erase(args.tag) == 0);
                                         m_cond_collected.notify_one();
                                     }
-                                    LOG_ERROR_RETURN(ETIMEDOUT, -1, "waiting for completion timeout");
+                                    if (!picked)
+                                        LOG_ERROR_RETURN(ETIMEDOUT, -1, "waiting for completion timeout");
+                                    // The reader has already taken this context out of the map and
+                                    // is collecting the response into it (and will write ret / phase
+                                    // and interrupt us afterwards): we must not unwind under it.
+                                    // Its read is bounded by our own timeout, so this is short.
+                                    while (args.phase != OooPhase::COLLECTED)
+                                        m_wait.wait(args.phaselock);
+                                    return args.ret;
                                 }
                                 break;
                             }
